@@ -1318,7 +1318,11 @@ func UnserializeScope(data any) (*ScopeSchema, error) {
 	if err != nil {
 		return nil, err
 	}
-	return s.(*ScopeSchema), nil
+	result := s.(*ScopeSchema)
+	// The references of the scope's own namespace are linked; references to other namespaces are left to whoever
+	// embeds the scope.
+	result.ApplySelf()
+	return result, nil
 }
 
 // UnserializeSchema unserializes an entire schema definition from raw data.
